@@ -5,6 +5,7 @@ CONSTANTS
   NSlots = 2
   MaxVal = 2
   DropOnAbort = TRUE
+  ReuseEntry = FALSE
   LookupFirst = TRUE
   AlwaysWrite = TRUE
 INVARIANTS Coherent OneCopy
